@@ -737,6 +737,9 @@ class C01(ScanProperty):
             for k, p in enumerate(modes[0]['patterns']):
                 p['t'] = k
             case['simple'] = True
+            if rng.random() < 0.4:
+                # modes added to the builder BEFORE add_patterns are ignored (documented)
+                case['simple_pre'] = [gen.gen_small_mode(rng, 'PRE%d' % k, ('a', 'b', 'c'), rng.randint(1, 3), 0.2) for k in range(rng.randint(1, 2))]
         pats = modes[0]['patterns']
         if 2 <= len(pats) <= 3 and not case.get('simple') and i % 4 == 1:
             # all priority orders of this pattern set on the same input
